@@ -397,6 +397,31 @@ def _c15(tier):
 CHECKS["C15"] = _c15
 
 
+def _c20(tier):
+    t0 = time.time()
+    res = Results("C20")
+    li = build.build_lib("plain")
+    exe = build.build_harness(li, "oom", ["oom.c"], extra_ldflags=["-Wl,--wrap=malloc,--wrap=calloc,--wrap=realloc,--wrap=free"])
+    run_workers([("oom", [exe, "--prop", "C20", "--tier", tier, "--seed", str(seed()), "--cfg", "plain"])], res)
+    res.evaluations = res.counters.get("runs", 0)
+    sites = res.counters.get("allocation_sites_seen", 0)
+    res.samples = [dict(scenarios=res.counters.get("scenarios", 0), allocations_observed=res.counters.get("allocations_observed", 0),
+                        fail_positions_enumerated=res.counters.get("fail_positions_enumerated", 0), allocation_sites_seen=sites)]
+    return finish(res, tier, "fault_enumeration",
+                  "20 scenarios chosen to reach every allocation site of the library (%ls copy incl. its conversion-error exit, the four long-double / hex-float directive copies, the "
+                  "no-space probes of the four wide buffer printf functions with dmax >= 512, normalisation scratch for len+2 >= 128, combining-sequence growth in reorder and compose, "
+                  "the two fold buffers of wcsicmp_s incl. its error exit); for each scenario a learning run counts the allocations A made during the call, then every position "
+                  "k = 1..A is failed in turn (complete per scenario); distinct = (scenario, fail position, outcome)", t0,
+                  extra_cov=dict(builds=["plain"], harnesses=["oom"], exhaustive=True, exhaustive_scope="all allocation positions of each listed scenario",
+                                 allocation_sites_seen=sites),
+                  assumptions=["allocations are intercepted with --wrap on a static link: only allocations made by the library's own code are counted and failed; allocations libc makes "
+                               "on the library's behalf (vswprintf, stdio) are outside the statement", "sites are identified by the return address of the wrapped call"],
+                  min_evals=30, floor_ok=sites >= 12, floor_msg="allocation sites seen: %d (expected >= 12)" % sites)
+
+
+CHECKS["C20"] = _c20
+
+
 def _c16(tier):
     t0 = time.time()
     res = Results("C16")
